@@ -13,7 +13,37 @@ var (
 	psStatus = paramSpec{kind: kEnum, leanType: "Status", strFn: "statusName"}
 	psPType  = paramSpec{kind: kEnum, leanType: "PType", strFn: "ptypeName"}
 	psOpStat = paramSpec{kind: kEnum, leanType: "OpStatus", strFn: "opStatusName"}
+	psTime   = paramSpec{kind: kTime}
 )
+
+// emitListing pins a function that is outside the byte-builder subset by its normalised statement
+// listing (skel.go): `def <lean> : List String`.
+func emitListing(b *strings.Builder, notes *[]string, p *pkgSrc, goName, lean string) {
+	fd := p.funcs[goName]
+	if fd == nil || fd.Body == nil {
+		*notes = append(*notes, goName+": function not found in source")
+		fmt.Fprintf(b, "opaque %s : List String\n\n", lean)
+		return
+	}
+	fmt.Fprintf(b, "/-- statement listing of `%s` -/\ndef %s : List String :=\n  %s\n\n", goName, lean, leanStrList(listing(p, fd)))
+}
+
+// emitConstBytes emits a package-level string/[]byte constant as a Lean `Bytes` literal.
+func emitConstBytes(b *strings.Builder, notes *[]string, tr *bytesTranslator, goName, lean string) {
+	v, ok := tr.p.vars[goName]
+	if !ok {
+		*notes = append(*notes, goName+": constant not found in source")
+		fmt.Fprintf(b, "opaque %s : Bytes\n\n", lean)
+		return
+	}
+	x, err := tr.expr(v, env{})
+	if err != nil {
+		*notes = append(*notes, goName+": "+err.Error())
+		fmt.Fprintf(b, "opaque %s : Bytes\n\n", lean)
+		return
+	}
+	fmt.Fprintf(b, "/-- `%s` -/\ndef %s : Bytes := %s\n\n", goName, lean, x)
+}
 
 func emitEnumTable(name, leanType string, tbl map[int]string, ctors map[int]string) (string, []string) {
 	var notes []string
@@ -33,7 +63,7 @@ func emitEnumTable(name, leanType string, tbl map[int]string, ctors map[int]stri
 func genKeys(repo string) (string, []string, error) {
 	var notes []string
 	var b strings.Builder
-	b.WriteString("import DymVerif.Model.Keys\nnamespace DymVerif.Gen.Keys\nopen DymVerif DymVerif.Keys\n\n")
+	b.WriteString("import DymVerif.Model.Keys2\nnamespace DymVerif.Gen.Keys\nopen DymVerif DymVerif.Keys\n\n")
 
 	// ---- x/common/types : rollapp packet keys ------------------------------------------
 	common, err := loadFiles(
@@ -129,6 +159,11 @@ func genKeys(repo string) (string, []string, error) {
 		{goName: "SequencersByRollappKey", leanName: "sequencersByRollappKey", params: []paramSpec{psBytes}},
 		{goName: "SequencersByRollappByStatusKey", leanName: "sequencersByRollappByStatusKey", params: []paramSpec{psBytes, psOpStat}},
 		{goName: "SequencerByRollappByStatusKey", leanName: "sequencerByRollappByStatusKey", params: []paramSpec{psBytes, psBytes, psOpStat}},
+		{goName: "SequencerKey", leanName: "sequencerKey", params: []paramSpec{psBytes}},
+		{goName: "ProposerByRollappKey", leanName: "proposerByRollappKey", params: []paramSpec{psBytes}},
+		{goName: "SuccessorByRollappKey", leanName: "successorByRollappKey", params: []paramSpec{psBytes}},
+		{goName: "NoticeQueueByTimeKey", leanName: "noticeQueueByTimeKey", params: []paramSpec{psTime}},
+		{goName: "NoticeQueueBySeqTimeKey", leanName: "noticeQueueBySeqTimeKey", params: []paramSpec{psBytes, psTime}},
 	}
 	for _, sp := range sorder {
 		trs.specs[sp.goName] = sp
@@ -137,6 +172,124 @@ func genKeys(repo string) (string, []string, error) {
 		b.WriteString(trs.fn(sp) + "\n")
 	}
 	notes = append(notes, trs.notes...)
+	emitConstBytes(&b, &notes, trs, "NoticePeriodQueueKey", "noticePeriodQueueKey")
+
+	// utils.EncodeTimeToKey (make + copy) and the notice-queue iterator bounds: pinned listings
+	ut, err := loadFiles(filepath.Join(repo, "utils/keys.go"))
+	if err != nil {
+		return "", nil, err
+	}
+	emitListing(&b, &notes, ut, "EncodeTimeToKey", "encodeTimeToKeyListing")
+	sk, err := loadFiles(filepath.Join(repo, "x/sequencer/keeper/get_and_set.go"), filepath.Join(repo, "x/sequencer/keeper/rotation.go"))
+	if err != nil {
+		return "", nil, err
+	}
+	emitListing(&b, &notes, sk, "Keeper.NoticeQueue", "noticeQueueListing")
+	emitListing(&b, &notes, sk, "Keeper.NoticeElapsedProposers", "noticeElapsedProposersListing")
+
+	// ---- x/dymns/types : buy-order ids ------------------------------------------------------------
+	dn, err := loadFiles(filepath.Join(repo, "x/dymns/types/buy_offer.go"), filepath.Join(repo, "x/dymns/types/constants.go"))
+	if err != nil {
+		return "", nil, err
+	}
+	trd := &bytesTranslator{p: dn, specs: map[string]*fnSpec{}, enumCases: map[string]string{}}
+	emitConstBytes(&b, &notes, trd, "BuyOrderIdTypeDymNamePrefix", "buyOrderIdTypeDymNamePrefix")
+	emitConstBytes(&b, &notes, trd, "BuyOrderIdTypeAliasPrefix", "buyOrderIdTypeAliasPrefix")
+	emitListing(&b, &notes, dn, "IsValidBuyOrderId", "isValidBuyOrderIdListing")
+	emitListing(&b, &notes, dn, "CreateBuyOrderId", "createBuyOrderIdListing")
+
+	// ---- x/iro/types : IRO denoms, plan keys -------------------------------------------------------
+	ir, err := loadFiles(filepath.Join(repo, "x/iro/types/plan.go"), filepath.Join(repo, "x/iro/types/keys.go"))
+	if err != nil {
+		return "", nil, err
+	}
+	tri := &bytesTranslator{p: ir, specs: map[string]*fnSpec{}, enumCases: map[string]string{}}
+	for _, sp := range []*fnSpec{
+		{goName: "IRODenom", leanName: "iRODenom", params: []paramSpec{psBytes}},
+		{goName: "PlanKey", leanName: "planKey", params: []paramSpec{psBytes}},
+		{goName: "PlansByRollappKey", leanName: "plansByRollappKey", params: []paramSpec{psBytes}},
+	} {
+		tri.specs[sp.goName] = sp
+		b.WriteString(tri.fn(sp) + "\n")
+	}
+	emitConstBytes(&b, &notes, tri, "IROTokenPrefix", "iROTokenPrefix")
+	emitConstBytes(&b, &notes, tri, "LastPlanIdKey", "lastPlanIdKey")
+	emitConstBytes(&b, &notes, tri, "ParamsKey", "iroParamsKey")
+	emitListing(&b, &notes, ir, "RollappIDFromIRODenom", "rollappIDFromIRODenomListing")
+	irk, err := loadFiles(filepath.Join(repo, "x/iro/keeper/iro.go"))
+	if err != nil {
+		return "", nil, err
+	}
+	emitListing(&b, &notes, irk, "Keeper.SetPlan", "setPlanListing")
+	notes = append(notes, tri.notes...)
+
+	// ---- x/dymns/types : store keys -------------------------------------------------------------------
+	dk, err := loadFiles(filepath.Join(repo, "x/dymns/types/keys.go"))
+	if err != nil {
+		return "", nil, err
+	}
+	psAsset := paramSpec{kind: kEnum, leanType: "AssetType", strFn: "assetTypeName"}
+	trn := &bytesTranslator{p: dk, specs: map[string]*fnSpec{}, enumCases: map[string]string{"TypeName": ".name", "TypeAlias": ".alias"}}
+	for _, sp := range []*fnSpec{
+		{goName: "DymNameKey", leanName: "dymNameKey", params: []paramSpec{psBytes}},
+		{goName: "DymNamesOwnedByAccountRvlKey", leanName: "dymNamesOwnedByAccountRvlKey", params: []paramSpec{psBytes}},
+		{goName: "ConfiguredAddressToDymNamesIncludeRvlKey", leanName: "configuredAddressToDymNamesIncludeRvlKey", params: []paramSpec{psBytes}},
+		{goName: "FallbackAddressToDymNamesIncludeRvlKey", leanName: "fallbackAddressToDymNamesIncludeRvlKey", params: []paramSpec{psBytes}},
+		{goName: "SellOrderKey", leanName: "sellOrderKey", params: []paramSpec{psBytes, psAsset}},
+		{goName: "BuyOrderKey", leanName: "buyOrderKey", params: []paramSpec{psBytes}},
+		{goName: "BuyerToOrderIdsRvlKey", leanName: "buyerToOrderIdsRvlKey", params: []paramSpec{psBytes}},
+		{goName: "DymNameToBuyOrderIdsRvlKey", leanName: "dymNameToBuyOrderIdsRvlKey", params: []paramSpec{psBytes}},
+		{goName: "AliasToBuyOrderIdsRvlKey", leanName: "aliasToBuyOrderIdsRvlKey", params: []paramSpec{psBytes}},
+		{goName: "RollAppIdToAliasesKey", leanName: "rollAppIdToAliasesKey", params: []paramSpec{psBytes}},
+		{goName: "AliasToRollAppIdRvlKey", leanName: "aliasToRollAppIdRvlKey", params: []paramSpec{psBytes}},
+	} {
+		trn.specs[sp.goName] = sp
+		b.WriteString(trn.fn(sp) + "\n")
+	}
+	emitConstBytes(&b, &notes, trn, "KeyCountBuyOrders", "keyCountBuyOrders")
+	for _, c := range []string{"KeyPrefixDymName", "KeyPrefixRvlDymNamesOwnedByAccount", "KeyPrefixRvlConfiguredAddressToDymNamesInclude",
+		"KeyPrefixRvlFallbackAddressToDymNamesInclude", "KeyPrefixSellOrder", "KeyPrefixDymNameSellOrder", "KeyPrefixAliasSellOrder",
+		"KeyPrefixBuyOrder", "KeyPrefixRvlBuyerToBuyOrderIds", "KeyPrefixRvlDymNameToBuyOrderIds", "KeyPrefixRvlAliasToBuyOrderIds",
+		"KeyPrefixRollAppIdToAliases", "KeyPrefixRvlAliasToRollAppId"} {
+		emitConstBytes(&b, &notes, trn, c, "dymns"+c)
+	}
+	notes = append(notes, trn.notes...)
+
+	// ---- x/lockup : reference keys and iterator bounds -----------------------------------------------
+	lt, err := loadFiles(filepath.Join(repo, "x/lockup/types/keys.go"))
+	if err != nil {
+		return "", nil, err
+	}
+	trk := &bytesTranslator{p: lt, specs: map[string]*fnSpec{}, enumCases: map[string]string{}}
+	for _, c := range []string{"KeyIndexSeparator", "KeyPrefixNotUnlocking", "KeyPrefixUnlocking", "KeyPrefixTimestamp", "KeyPrefixDuration",
+		"KeyPrefixLockDuration", "KeyPrefixAccountLockDuration", "KeyPrefixDenomLockDuration", "KeyPrefixAccountDenomLockDuration",
+		"KeyPrefixLockTimestamp", "KeyPrefixAccountLockTimestamp", "KeyPrefixDenomLockTimestamp", "KeyPrefixAccountDenomLockTimestamp"} {
+		emitConstBytes(&b, &notes, trk, c, "lockup"+c)
+	}
+	lk, err := loadFiles(filepath.Join(repo, "x/lockup/keeper/utils.go"), filepath.Join(repo, "x/lockup/keeper/iterator.go"),
+		filepath.Join(repo, "x/lockup/keeper/lock_refs.go"), filepath.Join(repo, "x/lockup/keeper/store.go"))
+	if err != nil {
+		return "", nil, err
+	}
+	for _, fn := range []string{"combineKeys", "getTimeKey", "getDurationKey", "durationLockRefKeys", "lockRefKeys"} {
+		emitListing(&b, &notes, lk, fn, "lockup_"+fn+"_listing")
+	}
+	// iterator bounds and the storing side, one combined listing
+	var all []string
+	for _, fn := range []string{"unlockingPrefix", "Keeper.iteratorAfterTime", "Keeper.iteratorBeforeTime", "Keeper.iteratorDuration",
+		"Keeper.iteratorLongerDuration", "Keeper.iteratorShorterDuration", "Keeper.iterator",
+		"Keeper.LockIteratorBeforeTime", "Keeper.AccountLockIteratorBeforeTime", "Keeper.LockIteratorAfterTimeDenom",
+		"Keeper.LockIteratorLongerThanDurationDenom", "Keeper.AccountLockIterator", "Keeper.AccountLockIteratorDuration",
+		"Keeper.LockIteratorDenom", "Keeper.addLockRefs", "Keeper.addLockRefByKey"} {
+		fd := lk.funcs[fn]
+		if fd == nil || fd.Body == nil {
+			notes = append(notes, fn+": function not found in source")
+			all = append(all, "MISSING "+fn)
+			continue
+		}
+		all = append(all, listing(lk, fd)...)
+	}
+	fmt.Fprintf(&b, "/-- statement listings of the lockup iterator constructors and of the storing side -/\ndef lockupIteratorsListing : List String :=\n  %s\n\n", leanStrList(all))
 
 	b.WriteString("end DymVerif.Gen.Keys\n")
 	return b.String(), notes, nil
